@@ -1109,10 +1109,19 @@ func c01runHist(r *Run, seed uint64, idx, nops, flags int, rec bool) (sig, what 
 	before := c01observe(h.f, h.maxRow, h.maxCol)
 	pre := map[string]string{}
 	list := h.f.GetSheetList()
+	preBook := ""
 	if rec {
 		for _, sh := range list {
 			pre[sh] = xl.VerifC01Rows(h.f, sh)
+			// the invariant of the theorems (Inv: every worksheet dense) on a reachable state
+			if rows, ok := c01parse(pre[sh]); ok {
+				if _, dense := c01denseAbs(rows); !dense {
+					return "hist:inv-not-dense", "worksheet " + sh + " of a workbook built through the public API is not dense before the save", h.log
+				}
+				r.Stat("hist:inv-dense-sheets")
+			}
 		}
+		preBook = c01bookDump(h.f)
 	}
 	g, err := c01save(h.f, how)
 	if err != nil {
@@ -1136,6 +1145,10 @@ func c01runHist(r *Run, seed uint64, idx, nops, flags int, rec bool) (sig, what 
 			r.Stat("hcycle:" + strings.SplitN(post, " ", 2)[0])
 			c01gridOracle(r, "hcycle", spec, post, ln)
 		}
+	}
+	if rec {
+		r.Op("hbook "+preBook, "ok "+c01bookDump(g))
+		r.Stat("hbook")
 	}
 	after := c01observe(g, h.maxRow, h.maxCol)
 	if k, d := c01diff(before, after); k != "" {
@@ -1230,6 +1243,7 @@ func runC01(r *Run, rng *Rng, replay string) {
 		nCols = 20000
 	}
 	c01colsPhase(r, rng, nCols)
+	c01cellTextPhase(r, rng, nCols/12)
 	lap("witnesses+attribute histories+cols")
 	// 1. fixed boundary payloads through every string op
 	for i, s := range c01fixedPayloads() {
@@ -1413,6 +1427,11 @@ func c01replay(r *Run, path string) {
 			c01afterSave(r)
 		case "farcell":
 			c01farCell(r)
+		case "setint":
+			n, _ := strconv.ParseInt(w[1], 10, 64)
+			c01setint(r, n)
+		case "setbool":
+			c01setbool(r, w[1] == "1")
 		case "mcols", "hmcols":
 			c01mcols(r, rest)
 		case "attrpair":
